@@ -423,3 +423,34 @@ Proof.
   destruct (eigc_update p cov mu (fst (fst h)) (snd (fst h)) (snd h)) as [[c1 m1] q]. cbn [fst snd] in *.
   apply IH; auto. lia.
 Qed.
+
+(** ** Sivia-Skilling with a full covariance: the covariance is rescaled by a positive factor, > 1
+    when the cumulative acceptance rate is above the target and < 1 when below: the proposal
+    widens (narrows) in EVERY direction, as a quadratic form, and stays positive semidefinite *)
+Lemma map_scale_r (c : R) (A : list (list R)) : map (map (fun x => x * c)) A = @mscale R _ c A.
+Proof.
+  unfold mscale. apply map_ext. intros r. apply map_ext. intros x. cbn. ring.
+Qed.
+
+Theorem ssc_direction_psd (p : @ssc R) (n : nat) nsteps (acc : bool) :
+  0 < q_target p < 1 ->
+  let nacc := (q_nacc p + (if acc then 1 else 0))%Z in
+  let niter := (nsteps - (q_start p - 1) + 1)%Z in
+  (0 <= nacc <= niter)%Z -> (0 < niter)%Z -> psd n (q_cov p) ->
+  psd n (q_cov (ssc_update p nsteps acc))
+  /\ (q_target p < IZR nacc / IZR niter ->
+      forall w, length w = n -> @quad R _ (q_cov p) w <= @quad R _ (q_cov (ssc_update p nsteps acc)) w)
+  /\ (IZR nacc / IZR niter < q_target p ->
+      forall w, length w = n -> @quad R _ (q_cov (ssc_update p nsteps acc)) w <= @quad R _ (q_cov p) w).
+Proof.
+  intros Ht nacc niter Hn Hi [HS HQ]. unfold ssc_update. fold nacc. fold niter. cbn [q_cov].
+  set (dummy := {| s_std := []; s_nacc := 0; s_target := q_target p; s_start := 0; s_cap := None |} : @ss R).
+  destruct (ss_alpha_cases dummy Ht nacc niter Hn Hi) as (Hup & Hdown & Hp). cbn [s_target dummy] in *.
+  set (al := ss_alpha nacc niter (q_target p)) in *.
+  match goal with |- context [if ?b then _ else _] => destruct b end.
+  - rewrite map_scale_r. split; [|split].
+    + split; [now apply mscale_shaped|]. intros w Hw. rewrite quad_scale. apply Rmult_le_pos; [lra|auto].
+    + intros Hr w Hw. rewrite quad_scale. specialize (Hup Hr). specialize (HQ w Hw). nra.
+    + intros Hr w Hw. rewrite quad_scale. specialize (Hdown Hr). specialize (HQ w Hw). nra.
+  - split; [split; assumption|]. split; intros; lra.
+Qed.
